@@ -83,6 +83,19 @@ def c15_sequence(rec, rng, kind, start, length, case):
 
     def V(key, msg):
         rec.violation("C15", f"{kind}:{key}", f"[start={start}, after {steps}] {msg}", dict(case, steps=list(steps)))
+        size_oracle()
+
+    def size_oracle():
+        """C02, evaluated on whatever state the sequence has reached: the decoder consumes exactly what was written"""
+        try:
+            x_ = lib.enc(blk)
+            _b, used_ = lib.dec(kind, lib.fmt_of(blk), x_, b"", b"\xa5" * 64)
+        except Exception:
+            return
+        rec.count("oracle:C02.consumed==written(object workloads)")
+        if used_ != len(x_):
+            rec.violation("C02", f"{kind}:consumed!=written", f"[after {steps}] _build consumed {used_} bytes of a {len(x_)}-byte encoding",
+                          dict(case, steps=list(steps)))
 
     steps = []
     # ---- starting block -----------------------------------------------------------------------
@@ -275,9 +288,11 @@ def c15_sequence(rec, rng, kind, start, length, case):
                         V("bulk-add:duplicate-channel", f"{ch}"); return
                     shadow = list(zip(ch, items))
                     continue
-                steps.append(f"add_platforms({k}, channels={chs})")
+                form = rng.choice(["lists", "lists", "generator", "iter", "tuple"])
+                steps.append(f"add_platforms({k} as {form}, channels={chs})")
+                pl_arg = {"lists": lambda: its, "generator": lambda: (x_ for x_ in its), "iter": lambda: iter(its), "tuple": lambda: tuple(its)}[form]()
                 try:
-                    blk.add_platforms(its, chs) if withch else blk.add_platforms(its)
+                    blk.add_platforms(pl_arg, chs) if withch else blk.add_platforms(pl_arg)
                 except Exception as e:
                     V("bulk-add:refused", f"{type(e).__name__}: {e}"); return
                 ch, items, oerr = observed_pairs(kind, blk)
@@ -363,6 +378,7 @@ def c15_sequence(rec, rng, kind, start, length, case):
             if oerr:
                 V("channel-list-and-items-disagree", oerr); return
             x = lib.enc(blk)
+            size_oracle()
             blk2, _ = lib.dec(kind, lib.fmt_of(blk), x)
             ch2, items2, oerr = observed_pairs(kind, blk2)
             rec.count("oracle:C15.roundtrip-pairs")
@@ -386,6 +402,39 @@ def c15_sequence(rec, rng, kind, start, length, case):
             V("duplicate-channel", f"{ch}"); return
 
 
+def c15_boundary_channels(rec, rng, kind, case):
+    """explicit channels at the ends of the field's range (no automatic add follows, so max+1 cannot leave the field):
+    accepted, kept with their items, and still there after a round trip"""
+    n = 3
+    top = 65535 if kind == "platData" else 32767
+    for chs in ([top], [0, top], [top, 0, 1], [top - 1, top], [1, top, top - 1, 0]):
+        if kind == "emg":
+            blk = tdfEMG.EMG(1000, n)
+        elif kind == "platCal":
+            blk = tdfForcePlatformsCalibration.ForcePlatformsCalibrationDataBlock()
+        else:
+            blk = tdfForcePlatformsData.ForcePlatformsDataBlock(0.0, 100, n)
+        its = []
+        rec.count("oracle:C15.boundary-channels")
+        for c in chs:
+            it = _mk_item(rng, kind, n)
+            try:
+                (blk.addSignal if kind == "emg" else blk.add_platform)(it, c)
+            except Exception as e:
+                rec.violation("C15", f"{kind}:add-explicit:free-channel-refused",
+                              f"channel {c} (free, inside the {'unsigned' if kind == 'platData' else 'signed'} 16-bit field) refused: "
+                              f"{type(e).__name__}: {e}", dict(case, channels=chs))
+                return
+            its.append(it)
+        for where in ("built", "decoded"):
+            ch, items, err = observed_pairs(kind, blk)
+            if err or ch != chs or (where == "built" and ident(items) != ident(its)):
+                rec.violation("C15", f"{kind}:add-explicit:pairs-differ-from-history", f"[{where}] channels {ch} for requested {chs}: {err}",
+                              dict(case, channels=chs))
+                return
+            blk, _ = lib.dec(kind, lib.fmt_of(blk), lib.enc(blk))
+
+
 def shard_c15(desc, rec):
     rng = random.Random(desc["seed"] * 73 + desc.get("shard", 0))
     for i in range(desc["n"]):
@@ -396,6 +445,10 @@ def shard_c15(desc, rec):
         rec.case(case, True, sample=case if i % 150 == 0 else None)
         rec.count(f"c15:{kind}:{start}")
         c15_sequence(rec, rng, kind, start, length, case)
+    brng = random.Random(desc["seed"] * 73 + 5)
+    for kind in ("emg", "platCal", "platData"):
+        c15_boundary_channels(rec, brng, kind, {"driver": "c15", "kind": kind, "seed": desc["seed"], "shard": desc.get("shard", 0),
+                                                 "index": 0, "boundary": True})
 
 
 # ================================================================================================
